@@ -70,7 +70,7 @@ type WireEvent struct {
 // State is the network of one execution.
 type State struct {
 	exec      *vrt.Exec
-	listeners map[string]*TCPListener
+	listeners []*TCPListener
 	Tap       []WireEvent
 	Conns     []*TCPConn
 	Dials     int
@@ -82,7 +82,7 @@ type State struct {
 	// Window is the receive window given to new connections.
 	Window int
 	// DialHook lets a scenario observe/deny dials.
-	Down map[string]bool // addresses that refuse connections although a listener exists
+	down []string // addresses that refuse connections although a listener exists
 }
 
 var st *State
@@ -90,13 +90,45 @@ var st *State
 // Net returns the network of the running execution (created on first use).
 func Net() *State {
 	if st == nil || st.exec != vrt.S {
-		st = &State{exec: vrt.S, listeners: map[string]*TCPListener{}, Window: 1 << 22, Down: map[string]bool{}}
+		st = &State{exec: vrt.S, Window: 1 << 22}
 	}
 	return st
 }
 
 // Last returns the network state of the most recent execution (for checks that run after it ended).
 func Last() *State { return st }
+
+// SetDown makes an address refuse connections (or accept them again) although a listener exists.
+func (n *State) SetDown(address string, down bool) {
+	var keep []string
+	for _, a := range n.down {
+		if a != address {
+			keep = append(keep, a)
+		}
+	}
+	if down {
+		keep = append(keep, address)
+	}
+	n.down = keep
+}
+
+func (n *State) isDown(address string) bool {
+	for _, a := range n.down {
+		if a == address {
+			return true
+		}
+	}
+	return false
+}
+
+func (n *State) listener(address string) *TCPListener {
+	for _, l := range n.listeners {
+		if l.address == address {
+			return l
+		}
+	}
+	return nil
+}
 
 func (n *State) fault(op, local string) string {
 	n.Ops++
@@ -286,8 +318,8 @@ func (d *Dialer) DialContext(ctx vcontext.Context, network, address string) (Con
 	if ctx != nil && ctx.Err() != nil {
 		return nil, &net.OpError{Op: "dial", Net: "tcp", Err: ctx.Err()}
 	}
-	l := n.listeners[address]
-	if l == nil || l.closed || f == "refuse" || n.Down[address] {
+	l := n.listener(address)
+	if l == nil || l.closed || f == "refuse" || n.isDown(address) {
 		vrt.Fold(0)
 		return nil, &net.OpError{Op: "dial", Net: "tcp", Err: syscall.ECONNREFUSED}
 	}
@@ -341,9 +373,13 @@ func (l *TCPListener) Close() error {
 		c.Reset()
 	}
 	n := Net()
-	if n.listeners[l.address] == l {
-		delete(n.listeners, l.address)
+	var keep []*TCPListener
+	for _, x := range n.listeners {
+		if x != l {
+			keep = append(keep, x)
+		}
 	}
+	n.listeners = keep
 	return nil
 }
 func (l *TCPListener) Addr() Addr { return addr(l.address) }
@@ -352,11 +388,11 @@ type ListenConfig struct{ KeepAlive time.Duration }
 
 func (lc *ListenConfig) Listen(ctx vcontext.Context, network, address string) (Listener, error) {
 	n := Net()
-	if n.listeners[address] != nil {
+	if n.listener(address) != nil {
 		return nil, &net.OpError{Op: "listen", Net: "tcp", Err: syscall.EADDRINUSE}
 	}
 	l := &TCPListener{id: vrt.NewObj(), address: address}
-	n.listeners[address] = l
+	n.listeners = append(n.listeners, l)
 	return l, nil
 }
 
